@@ -22,6 +22,7 @@ EVIDENCE = os.path.join(VERIF, "evidence")
 REPLAYS = os.path.join(VERIF, "replays")
 KNOWN = os.path.join(VERIF, "KNOWN_FINDINGS.txt")
 TLA_JAR = "/opt/veriftools/tla/tla2tools.jar:/opt/veriftools/tla/CommunityModules-deps.jar"
+WORKERS = max(2, min(12, (os.cpu_count() or 4) - 2))
 
 EXIT_OK, EXIT_VIOLATION, EXIT_ERROR = 0, 1, 2
 
@@ -278,10 +279,14 @@ class Report:
         self.assumptions = []
         self.known = load_known(prop)
         self.notes = []
+        self.layout = {}
 
     def add_tlc(self, res):
         self.cov["states"] += res.distinct
         self.cov["transitions"] += res.generated
+        # generated images: does the real image also follow the reference layout of spec/IsoLayout.tla?  (reported, not a verdict)
+        for m in re.finditer(r'<<"LAYOUT", "((?:[^"\\]|\\.)*)", "(same|differs|n/a|skipped)">>', res.out):
+            self.layout[m.group(1)] = m.group(2)
 
     def violation(self, sig, text, replay_files=None):
         for ksig, ktext in self.known:
@@ -320,6 +325,11 @@ class Report:
             "coverage": self.cov, "assumptions": self.assumptions, "wall_s": round(wall, 2),
             "violations": len(self.violations),
         }
+        if self.layout:
+            cnt = {}
+            for v in self.layout.values():
+                cnt[v] = cnt.get(v, 0) + 1
+            ev["coverage"]["reference_layout_conformance"] = dict(cnt, differing=sorted(k for k, v in self.layout.items() if v == "differs")[:20])
         if self.notes:
             ev["coverage"]["notes"] = self.notes
         if self.known_hit:
